@@ -239,6 +239,10 @@ def run(ctx):
     ctx.count("fields", len(fields_checked & need))
     ctx.ob("C10.a", fn.qual, need <= fields_checked, f"all {len(need)} settable fields have a reference row with a left inverse",
            func=fn.qual, file=file, construct="field coverage", fail=f"fields without a decoded row: {sorted(need - fields_checked)}")
+    # ---- C10.f the state the command encodes is the state that was requested: setter -> attribute -> apply -> command attribute, unchanged
+    # (unknown values only are replaced by the documented defaults)
+    from ._chains import apply_chains
+    apply_chains(ctx, "C10.f")
     ctx.require_min("body_bytes", 24)
     ctx.require_min("regions", 4)
     ctx.require_min("fields", 16)
